@@ -21,6 +21,7 @@ static DROPS: AtomicUsize = AtomicUsize::new(0);
 static GOT: AtomicUsize = AtomicUsize::new(0);
 static STARTED: AtomicUsize = AtomicUsize::new(0); // pushes called
 static DONE: AtomicUsize = AtomicUsize::new(0); // pushes returned
+static TAKEN: AtomicUsize = AtomicUsize::new(0); // values the consumer has been handed (published after each call)
 struct Payload(usize);
 impl Drop for Payload {
     fn drop(&mut self) {
@@ -34,6 +35,20 @@ fn push(c: &Ctx, q: &may_queue::spsc::Queue<Payload>) {
     q.push(Payload(v));
     c.log("push.ret", 0, 0, None);
     DONE.fetch_add(1, Ordering::Relaxed);
+}
+
+/// len() called by the pushing thread: between (pushed - taken at the return, a consumer call in flight
+/// may have taken up to a block more) and (pushed - taken at the call)
+fn producer_len(c: &Ctx, q: &may_queue::spsc::Queue<Payload>) {
+    let pushed = DONE.load(Ordering::Relaxed);
+    let taken_before = TAKEN.load(Ordering::Relaxed);
+    c.log("plen.call", 0, 0, None);
+    let l = q.len();
+    c.log("plen.ret", 0, l as u64, None);
+    let taken_after = TAKEN.load(Ordering::Relaxed);
+    if l + taken_before > pushed || l + taken_after + may_queue::spsc::BLOCK_SIZE < pushed {
+        c.fail(format!("producer len {l} outside [{}, {}]", pushed.saturating_sub(taken_after + 32), pushed - taken_before));
+    }
 }
 
 /// one consumer operation; `got` = number of values handed out so far (they were 1..=got)
@@ -132,6 +147,7 @@ fn main() {
     let batch = envn("MAYV_BATCH", 1); // the offset phase pushes this many values, then takes them out again
     let batch_bulk = envn("MAYV_BATCH_BULK", 0) != 0; // ... with bulk_pop
     let ops = std::env::var("MAYV_OPS").unwrap_or_else(|_| "mix".to_string());
+    let plen = envn("MAYV_PLEN", 0); // the producer calls len() before one push in MAYV_PLEN
     let leave = envn("MAYV_LEAVE", 0); // values left in the queue when it is dropped
     run(cfg, move |ctx| {
         let q = Arc::new(may_queue::spsc::Queue::<Payload>::new());
@@ -151,6 +167,7 @@ fn main() {
                 consume(ctx, &q, mode, &mut got0);
             }
         }
+        TAKEN.store(got0, Ordering::Relaxed);
         if got0 != off {
             ctx.fail(format!("offset phase: {got0} of {off} values came back"));
         }
@@ -164,6 +181,9 @@ fn main() {
         let prod = ctx.spawn("prod", move || {
             let c = mayv::ctx();
             for _ in 0..nv {
+                if plen > 0 && c.rand() % plen as u64 == 0 {
+                    producer_len(&c, &qp);
+                }
                 push(&c, &qp);
             }
         });
@@ -188,6 +208,7 @@ fn main() {
                 // never take more than `want`: a bulk_pop could, so finish with single pops
                 let mode = if mode == 1 && want - got < 32 && leave > 0 { 0 } else { mode };
                 consume(&c, &qc, mode, &mut got);
+                TAKEN.store(got, Ordering::Relaxed);
             }
             if got != want {
                 c.fail(format!("consumed {got} of {want} values"));
